@@ -31,12 +31,12 @@ fn oneshot(ctx: &mut Ctx) {
     let name = format!("{}/oneshot", subj_name(&d));
     ctx.subject(&name);
     let b = ctx.cfg.bs;
-    let (iv, _) = wl::iv(&mut ctx.rng, d.iv_len);
+    let (iv, _) = mode_iv(ctx, d.iv_len);
     let (mut len, rc) = wl::nbytes(&mut ctx.rng, b, ctx.cfg.par, ctx.tier);
     if fam == Family::Cfb8 {
         len = len.min(500);
     }
-    let (data, dc) = wl::data(&mut ctx.rng, len);
+    let (data, dc) = mode_data(ctx, len);
     let form = *ctx.rng.pick(&FORMS3);
     let fill = *ctx.rng.pick(&ALL_FILLS);
     ctx.note("iv", J::s(hex_short(&iv)));
@@ -96,9 +96,9 @@ fn buffered(ctx: &mut Ctx) {
     let name = format!("cfb-buf/{}", dir.name());
     ctx.subject(&name);
     let b = ctx.cfg.bs;
-    let (iv, _) = wl::iv(&mut ctx.rng, b);
+    let (iv, _) = mode_iv(ctx, b);
     let (len, _) = wl::nbytes(&mut ctx.rng, b, ctx.cfg.par, ctx.tier);
-    let (data, _) = wl::data(&mut ctx.rng, len);
+    let (data, _) = mode_data(ctx, len);
     let (sched, sc) = wl::byte_schedule(&mut ctx.rng, len, b);
     ctx.note("iv", J::s(hex_short(&iv)));
     ctx.note("data", J::s(hex_short(&data)));
@@ -148,7 +148,7 @@ fn buffered(ctx: &mut Ctx) {
 /// OFB as keystream core and as byte-level stream cipher
 fn ofb_stream(ctx: &mut Ctx) {
     let b = ctx.cfg.bs;
-    let (iv, _) = wl::iv(&mut ctx.rng, b);
+    let (iv, _) = mode_iv(ctx, b);
     let key = ctx.key.clone();
     ctx.note("iv", J::s(hex_short(&iv)));
     if ctx.rng.coin() {
@@ -156,7 +156,7 @@ fn ofb_stream(ctx: &mut Ctx) {
         let name = "ofb/stream".to_string();
         ctx.subject(&name);
         let (len, _) = wl::nbytes(&mut ctx.rng, b, ctx.cfg.par, ctx.tier);
-        let (data, _) = wl::data(&mut ctx.rng, len);
+        let (data, _) = mode_data(ctx, len);
         let (sched, sc) = wl::byte_schedule(&mut ctx.rng, len, b);
         ctx.note("data", J::s(hex_short(&data)));
         ctx.note("pieces", J::Arr(sched.iter().map(|x| J::i(*x as i64)).collect()));
@@ -209,7 +209,7 @@ fn ofb_stream(ctx: &mut Ctx) {
         let name = "ofb/core".to_string();
         ctx.subject(&name);
         let (n, _) = wl::nblocks(&mut ctx.rng, ctx.cfg.par, b, ctx.tier);
-        let (data, _) = wl::data(&mut ctx.rng, n * b);
+        let (data, _) = mode_data(ctx, n * b);
         let (sizes, sc) = wl::schedule(&mut ctx.rng, n, ctx.cfg.par);
         ctx.note("data", J::s(hex_short(&data)));
         spy::log_start();
